@@ -101,6 +101,10 @@ def _half_open(R, clause, fn, atoms, t_pred, start_pred, end_pred, what):
         R.violate(clause, "membership:%s" % what, "%s does not test the half-open interval `t >= start && t < end` (lower ok=%s, upper ok=%s, %s; atoms %s)" % (what, lo, hi, bad, atoms[:4]), fn)
 
 
+def _named(sym):
+    return A.norm_bool_named(("bin", "Lt", sym, ("const", "u64", 0)), True)[0].rsplit(" < ", 1)[0]
+
+
 def _pred(R, clause, fn, names, what):
     """half-open membership via the predicate's decision table: accept iff !(t < start) and (t < end).
     Comparisons of the wrong strictness (`start < t`, `end < t`) make the predicate undecidable by these atoms -> violation."""
@@ -109,11 +113,30 @@ def _pred(R, clause, fn, names, what):
         for st in fn.stmts(b):
             if st[2] == "=" and st[4][0] == "bin" and st[4][1] in ("Lt", "Le", "Gt", "Ge"):
                 occurring.add(A.norm_bool_named(fn.sym_rvalue(st[4]), True)[0])
+    names0 = dict(names)
     names = {a: n for a, n in names.items() if a in occurring}
     used = set(names.values())
     if "GT_START" in used or "GT_END" in used:
         R.violate(clause, "membership:%s" % what, "%s compares with the wrong strictness on a window boundary (uses `start < t` or `end < t`): the interval is not `start <= t < end`" % what, fn)
         return
+    if not used:
+        # `(start..end).contains(&t)`: a Range is half-open by definition
+        want = {v: k.split(" < ") for k, v in names0.items()}
+        rs = A.returned_syms(fn)
+        r = strip(rs[0][1]) if len(rs) == 1 else ("none",)
+        if r[0] == "call" and r[1].endswith("::contains") and len(r[2]) == 2 and "LT_START" in want and "LT_END" in want:
+            rng = strip(r[2][0])
+            if rng[0] == "agg" and rng[1] in ("adt:std::ops::Range", "adt:std::ops::RangeInclusive") and len(rng[2]) == 2:
+                lo_t, hi_t = [_named(x) for x in rng[2]]
+                t = _named(r[2][1])
+                if rng[1].endswith("RangeInclusive"):
+                    R.violate(clause, "membership:%s" % what, "%s tests a closed range `start..=end`: an event at `end` is counted in this window and in the next" % what, fn)
+                    return
+                if t == want["LT_START"][0] and lo_t == want["LT_START"][1] and hi_t == want["LT_END"][1]:
+                    R.hold(clause, "%s: (start..end).contains(t) (half-open by construction)" % what, fn=fn)
+                    return
+            R.undecide(clause, "membership:%s" % what, "%s tests membership through `%s`, a form this rule does not read" % (what, fmt_sym(r, maxdepth=5)[:120]), fn)
+            return
     if not {"LT_START", "LT_END"} <= used:
         R.violate(clause, "membership:%s" % what, "%s does not compare the timestamp with both window bounds (found %s)" % (what, sorted(used)), fn)
         return
@@ -466,10 +489,23 @@ def _aggregates(P, R):
                         okm = True
                     elif m in ("min", "max"):
                         bad = m
+        # `values.reduce(f64::min)` / `.fold(.., f64::min)`: the combining function passed by name
+        for c in fn.calls():
+            if c.bb in fn.normal_blocks() and c.name.rsplit("::", 1)[-1] in ("reduce", "fold", "min_by", "max_by"):
+                for a in c.args[1:]:
+                    x = strip(fn.sym_operand(a))
+                    if x[0] == "const" and x[1] == "fn" and isinstance(x[2], str) and x[2].startswith(("std::f64::<impl f64>::", "core::f64::<impl f64>::")):
+                        m = x[2].rsplit("::", 1)[1]
+                        if m == meth:
+                            okm = True
+                        elif m in ("min", "max"):
+                            bad = m
         if okm and not bad:
             R.hold("e", "%s folds with f64::%s" % (name, meth), fn=fn)
+        elif bad:
+            R.violate("e", "fold:%s" % name, "TimeWindow::%s folds with f64::%s" % (name, bad), fn)
         else:
-            R.violate("e", "fold:%s" % name, "TimeWindow::%s folds with f64::%s" % (name, bad or "?"), fn)
+            R.undecide("e", "fold:%s" % name, "TimeWindow::%s: no f64::min / f64::max combining step found in a form this rule reads" % name, fn)
     R.count("aggregates", n)
 
 
@@ -522,8 +558,9 @@ def _window_manager(P, R):
     if f is None:
         R.undecide("g", "process_event", "WindowManager::process_event not found")
         return
+    f = P.inlined(f)      # `self.open_window_for(event)` and the like are read through
     ev = {}
-    creates, adds, cleanup = [], [], []
+    creates, adds, cleanup, any_probe = [], [], [], []
     for c in f.calls():
         if c.bb not in f.normal_blocks():
             continue
@@ -533,6 +570,18 @@ def _window_manager(P, R):
             adds.append(c)
         elif c.resolved and c.resolved.endswith("::cleanup_expired_windows"):
             cleanup.append(c)
+        elif c.name.endswith(("Iterator::any", "Iterator>::any")) and len(c.args) == 2 and "self.windows" in fmt_sym(f.sym_operand(c.args[0]), maxdepth=8) \
+                and not A.truncating_adapters(f.sym_operand(c.args[0])):
+            # self.windows.iter_mut().any(|w| w.add_event(event.clone())): offers the event to each window in turn and stops
+            # at the first that accepts it - the probing loop in adapter form
+            for x in walk(f.sym_operand(c.args[1])):
+                if x[0] == "agg" and x[1].startswith("closure:") and x[1][len("closure:"):] in P.fns:
+                    cl = P.fns[x[1][len("closure:"):]]
+                    rs = A.returned_syms(cl)
+                    r = strip(rs[0][1]) if len(rs) == 1 else ("none",)
+                    if r[0] == "call" and r[1] == TW + "::add_event" and any(y[0] == "param" and y[1] == 2 for y in walk(r[2][0])):
+                        any_probe.append(c)
+                        adds.append(c)
     if not creates or not adds:
         R.undecide("g", "process_event", "window creation / add_event calls not found (%d/%d)" % (len(creates), len(adds)), f)
         return
@@ -542,6 +591,7 @@ def _window_manager(P, R):
         R.undecide("g", "process_event", "decision rows capped", f)
         return
     existing = set(c.bb for c in adds if "self.windows" in fmt_sym(f.sym_operand(c.args[0]), maxdepth=10))
+    probe_bbs = set(c.bb for c in any_probe)
     n = 0
     bad = []
     for conds, ret, ex, evs in rows:
@@ -551,7 +601,7 @@ def _window_manager(P, R):
             s0 = strip(c)
             if s0[0] == "const" and isinstance(s0[2], bool) and isinstance(o, bool) and s0[2] != o:
                 feasible = False
-            if isinstance(o, bool) and any(x[0] == "call" and x[3] in existing and x[1] == TW + "::add_event" for x in walk(c)):
+            if isinstance(o, bool) and any(x[0] == "call" and x[3] in existing and (x[1] == TW + "::add_event" or x[3] in probe_bbs) for x in walk(c)):
                 a, v = A.norm_bool(c, o)
                 if v is True:
                     accepted = True
@@ -572,7 +622,7 @@ def _window_manager(P, R):
     else:
         R.undecide("g", "process_event", "only %d feasible paths enumerated" % n, f)
     # every existing window is offered the event: the probing loop walks self.windows without dropping elements
-    okp = False
+    okp = bool(any_probe)
     for lp in f.loops():
         if any(c.bb in lp["body"] for c in adds if c.bb in existing):
             drv = A.loop_driver(f, lp)
@@ -587,7 +637,15 @@ def _window_manager(P, R):
     start = fmt_sym(f.sym_operand(nw.args[2]), maxdepth=6) if len(nw.args) > 2 else ""
     new_adds = [c for c in adds if c.bb not in existing]
     pushes = [c for c in f.calls() if c.bb in f.normal_blocks() and c.name == "std::vec::Vec::push" and "self.windows" in fmt_sym(f.sym_operand(c.args[0]), maxdepth=6)]
-    if "calculate_window_start" in start and "metadata.timestamp" in start and new_adds and pushes and all(f.dominates(nw.bb, x.bb) for x in new_adds + pushes):
-        R.hold("g", "the new window starts at calculate_window_start(event timestamp), receives the event and is stored", fn=f, line=nw.line)
+    ssym = strip(f.sym_operand(nw.args[2])) if len(nw.args) > 2 else ("none",)
+    aligned = ssym[0] == "call" and ssym[1] in P.fns and ssym[1].startswith(WMG + "::") and any("metadata.timestamp" in fmt_sym(a, maxdepth=6) for a in ssym[2])
+    if not aligned:
+        # the start function spliced in: one value per window type, each computed from the event's timestamp, the tumbling one
+        # rounded down to a multiple of the width
+        arms = list(ssym[1]) if ssym[0] == "phi" else [ssym]
+        aligned = all("metadata.timestamp" in fmt_sym(a, maxdepth=12) for a in arms) and \
+            any(x[0] == "bin" and x[1] in ("Mul", "MulWithOverflow") and strip(x[2])[0] == "bin" and strip(x[2])[1] == "Div" and fmt_sym(strip(x[2])[3]) == fmt_sym(x[3]) for a in arms for x in walk(a))
+    if aligned and new_adds and pushes and all(f.dominates(nw.bb, x.bb) for x in new_adds + pushes):
+        R.hold("g", "the new window starts at %s(event timestamp), receives the event and is stored" % (ssym[1].rsplit("::", 1)[1] if ssym[0] == "call" else "the aligned start"), fn=f, line=nw.line)
     else:
-        R.violate("g", "new-window", "the window created for an unaccepted event is not (aligned start=%s, event added=%s, stored=%s)" % ("calculate_window_start" in start, bool(new_adds), bool(pushes)), f, nw.line)
+        R.violate("g", "new-window", "the window created for an unaccepted event is not (aligned start=%s, event added=%s, stored=%s)" % (aligned, bool(new_adds), bool(pushes)), f, nw.line)
